@@ -679,3 +679,118 @@ example : fd den (tbl .backward .constant) 4 (3 : ℚ) 2 (fun k => (k : ℚ) + 1
   have h := (C13.op_derivative_is_derivative (⟨.pd, .backward, .constant, (3 : ℚ), false⟩ : Op ℚ)
     4 (by decide) 2 (fun _ => 0) (fun k => (k : ℚ) + 1) 0).1
   simpa [Op.derivative] using h
+
+
+/-- Which error the size checks produce (the executed `sizeCheck`, printed by the driver and
+compared with the exception class of the real call): `ValueError` exactly for `n < 2` or
+(`order2`, `n < 3`); `IndexError` exactly for `order2_adjoint` with `n = 2` (its explicit guard
+names only 'order2'); for every method and every `n`.  Complements `size_ok_iff`. -/
+theorem C13.size_error_kind (m : Method) (p : Pad) (n : Nat) :
+    (sizeCheck guards (tbl m p) p n = some .value ↔ n < 2 ∨ (p = .order2 ∧ n < 3)) ∧
+    (sizeCheck guards (tbl m p) p n = some .index ↔ p = .order2Adj ∧ n = 2) := by
+  refine ⟨?_, ?_⟩ <;> cases m <;> cases p <;>
+    simp [sizeCheck, guards, tbl, Table.need, Table.corners, Corner.need] <;>
+    (try split_ifs) <;> (try simp_all) <;> (try omega)
+
+/-- The executed `Op.isLinear` (generated rule flags; compared with `op.is_linear`) is exact:
+for every instance, every `n ≥ 2`, `dx ≠ 0`: the flag is `true` iff the instance's 1-d action
+maps the zero array to zero.  Together with `fd_affine` this makes flagged-linear instances
+additive, and shows every flagged-affine instance really is not linear. -/
+theorem C13.is_linear_iff_zero_to_zero {K : Type} [Field K] [CharZero K] [DecidableEq K]
+    (o : Op K) (n : Nat) (hn : 2 ≤ n) (dx : K) (hdx : dx ≠ 0) :
+    o.isLinear affineAware = true ↔
+      ∀ i < n, fd den (tbl o.method o.pad) n o.c dx (fun _ => 0) i = 0 := by
+  have h2K : (2 : K) ≠ 0 := by
+    have := (Nat.cast_injective (R := K)).ne (show (2 : ℕ) ≠ 0 by decide)
+    exact_mod_cast this
+  obtain ⟨k, m, p, c, neg⟩ := o
+  have z0 : ∀ i, fd den (tbl m p) n 0 dx (fun _ => (0 : K)) i = 0 := by
+    intro i
+    have := C13.fd_affine (tbl m p) n hn 0 dx (fun _ => 0) (fun _ => 0) i
+    simpa using this.symm
+  have hlin : (⟨k, m, p, c, neg⟩ : Op K).isLinear affineAware = !(p == .constant && c != 0) := by
+    cases k <;> simp [Op.isLinear, affineAware]
+  rw [hlin]
+  by_cases hp : p = .constant
+  · by_cases hc : c = 0
+    · subst hc; simpa [hp] using fun i _ => z0 i
+    · subst hp
+      have hf : (!((Pad.constant == Pad.constant) && c != 0)) = false := by simp [hc]
+      rw [hf]
+      refine ⟨fun h => absurd h (by simp), fun h => ?_⟩
+      exfalso
+      obtain ⟨j, rfl⟩ : ∃ j, n = j + 2 := ⟨n - 2, by omega⟩
+      cases m
+      · refine absurd (h 0 (by omega)) ?_
+        simp [fd, fdNum_closed _ _ hn, tbl, evalTerms, evalTerm, accSum, den, hc, hdx, h2K]
+      · refine absurd (h (j + 1) (by omega)) ?_
+        simp [fd, fdNum_closed _ _ hn, tbl, evalTerms, evalTerm, accSum, den, hc, hdx, h2K]
+      · refine absurd (h 0 (by omega)) ?_
+        simp [fd, fdNum_closed _ _ hn, tbl, evalTerms, evalTerm, accSum, den, hc, hdx, h2K]
+  · have ht : (!((p == Pad.constant) && c != 0)) = true := by simp [hp]
+    rw [ht]
+    refine ⟨fun _ i _ => ?_, fun _ => rfl⟩
+    rw [C13.pad_const_ignored_unless_constant m p hp]; exact z0 i
+
+
+/-- The instance `Op.adjoint` builds (executed by `cfg act=adjoint`, compared with the object
+`op.adjoint` of PartialDerivative / Gradient / Divergence) IS minus the transpose of the
+instance's 1-d action, for EVERY linear instance - also with a `pad_const ≠ 0` that a
+non-constant pad mode carries along or that `Divergence.adjoint` drops - every `n` on which both
+run: the returned instance has the flipped sign flag and `Σ g·D_o f = −Σ f·D_a g`. -/
+theorem C13.op_adjoint_is_transpose {K : Type} [Field K] [DecidableEq K] (o : Op K)
+    (hk : o.kind ≠ .lap) (hl : o.isLinear affineAware = true) (n : Nat)
+    (h : sizeCheck guards (tbl o.method o.pad) o.pad n = none)
+    (h' : sizeCheck guards (tbl (adjMethod o.method) (adjPad o.pad)) (adjPad o.pad) n = none)
+    (dx : K) (f g : Nat → K) :
+    ∃ a, o.adjoint affineAware adjGuarded adjMethod adjPad = some a ∧ a.neg = !o.neg ∧
+      ∑ i ∈ range n, g i * fd den (tbl o.method o.pad) n o.c dx f i
+        = - ∑ j ∈ range n, f j * fd den (tbl a.method a.pad) n a.c dx g j := by
+  obtain ⟨k, m, p, c, neg⟩ := o
+  have key := C13.fd_adjoint_transpose m p n h h' dx f g
+  have hcp : adjPad p = .constant ↔ p = .constant := by cases p <;> decide
+  -- both sides do not depend on c
+  have e1 : ∀ i, fd den (tbl m p) n c dx f i = fd den (tbl m p) n 0 dx f i := by
+    intro i
+    by_cases hp : p = .constant
+    · have hc : c = 0 := by
+        cases k <;> simp_all [Op.isLinear, affineAware]
+      rw [hc]
+    · exact C13.pad_const_ignored_unless_constant m p hp n c dx f i
+  have e2 : ∀ c' : K, (c' = c ∨ c' = 0) → ∀ j, fd den (tbl (adjMethod m) (adjPad p)) n c' dx g j
+      = fd den (tbl (adjMethod m) (adjPad p)) n 0 dx g j := by
+    intro c' hc' j
+    by_cases hp : p = .constant
+    · have hc : c = 0 := by
+        cases k <;> simp_all [Op.isLinear, affineAware]
+      rcases hc' with rfl | rfl <;> simp [hc]
+    · exact C13.pad_const_ignored_unless_constant _ _ (fun hh => hp (hcp.1 hh)) n c' dx g j
+  simp only [e1, key]
+  cases k
+  · exact ⟨⟨.pd, adjMethod m, adjPad p, c, !neg⟩, by simp_all [Op.adjoint, adjGuarded], rfl,
+      by simp only [e2 c (Or.inl rfl)]⟩
+  · exact ⟨⟨.div, adjMethod m, adjPad p, c, !neg⟩, by simp_all [Op.adjoint, adjGuarded], rfl,
+      by simp only [e2 c (Or.inl rfl)]⟩
+  · exact ⟨⟨.grad, adjMethod m, adjPad p, 0, !neg⟩, by simp_all [Op.adjoint, adjGuarded], rfl,
+      by rfl⟩
+  · exact absurd rfl hk
+
+example : (sizeCheck guards (tbl .central .order2Adj) .order2Adj 2 = some .index) :=
+  (C13.size_error_kind .central .order2Adj 2).2.2 ⟨rfl, rfl⟩
+
+example : ∃ i < 3, fd den (tbl .forward .constant) 3 (2 : ℚ) 1 (fun _ => 0) i ≠ 0 := by
+  have h := (C13.is_linear_iff_zero_to_zero (⟨.grad, .forward, .constant, (2 : ℚ), false⟩ : Op ℚ)
+    3 (by decide) 1 one_ne_zero)
+  have hf : (⟨.grad, .forward, .constant, (2 : ℚ), false⟩ : Op ℚ).isLinear affineAware = false := by
+    simp [Op.isLinear, affineAware]
+  by_contra hcon
+  push_neg at hcon
+  have := h.2 hcon
+  simp [hf] at this
+
+example (f g : Nat → ℚ) : ∃ a, (⟨.div, .forward, .order1, (3 : ℚ), false⟩ : Op ℚ).adjoint
+      affineAware adjGuarded adjMethod adjPad = some a ∧ a.neg = true ∧
+    ∑ i ∈ range 4, g i * fd den (tbl .forward .order1) 4 3 (1 / 2) f i
+      = - ∑ j ∈ range 4, f j * fd den (tbl a.method a.pad) 4 a.c (1 / 2) g j := by
+  simpa using C13.op_adjoint_is_transpose (⟨.div, .forward, .order1, (3 : ℚ), false⟩ : Op ℚ)
+    (by decide) (by simp [Op.isLinear, affineAware]) 4 (by decide) (by decide) (1 / 2) f g
